@@ -22,7 +22,7 @@ RULE = c04.RULE + "; in every state: integral(), log_integral(), integral_light(
 ASSUMPTIONS = c04.ASSUMPTIONS + ["quadratic identification: evaluate_ln probed on the lattice {0, +-e_i, e_i+e_j} + 3 verification points (quadraticity residual <= 1e-7 certified per state)"]
 BOUNDS = {
     "quick": dict(D=[2], rcap=4, full_alphabet_depth=2, reduced_alphabet_depth=3, vi=[0, 100], D_shallow=[1, 3], shallow_depth=1, ctor=dict(R=[1, 2, 3], D=[1, 2, 3])),
-    "thorough": dict(D=[1, 2, 3], rcap=6, full_alphabet_depth=3, reduced_alphabet_depth=5, vi=[0, 1, 100], ctor=dict(R=[1, 2, 3, 4], D=[1, 2, 3, 4])),
+    "thorough": dict(D=[2], rcap=6, full_alphabet_depth=3, reduced_alphabet_depth=5, vi=[0, 100], D_shallow=[1, 3], shallow_depth=2, ctor=dict(R=[1, 2, 3, 4], D=[1, 2, 3, 4])),
 }
 BUDGET = {"quick": 900, "thorough": 5400}
 
